@@ -17,7 +17,8 @@
                                                addImplementationComputeVariablesMethodCode  (as sequences of statements)
 
     [voi_fix] selects the code with fixes/C20-voi-external.diff (the variable of integration is un-marked when the
-    message "cannot be used as an external variable" is issued; it is recognised through its internal variable).
+    message "cannot be used as an external variable" is issued; it is recognised through its internal variable);
+    [sibling_fix] the code with fixes/C20-nla-sibling-dependencies.diff.
 
     No proofs here. *)
 From Coq Require Import List Bool Arith PeanoNat.
@@ -216,6 +217,7 @@ Definition depends_on (s : system) (k : nat) (marked : list nat) : bool := mem_n
 
 Section Emission.
 Variable r : result.
+Variable sfx : bool.            (* with fixes/C20-nla-sibling-dependencies.diff? *)
 
 Definition is_state_var (v : vref) : bool := existsb (fun a => vref_eqb (av_var a) v) (r_states r).
 
@@ -270,6 +272,14 @@ Definition dep_wanted (icc : bool) (efd : list nat) (d : aeq) : bool :=
   negb (qtype_eqb (ae_type d) QOde) && negb (is_some_constant d icc)
   && (match efd with [] => true | _ => false end || to_be_computed_again d || mem_nat (ae_pos d) efd).
 
+(** DEFECT C20-nla-sibling-dependencies.  generateEquationCode emits ONE findRoot call for an NLA system but generated
+    only the dependencies of the equation of the system that it reached first; [sfx = true] is the code with
+    fixes/C20-nla-sibling-dependencies.diff (the dependencies of the NLA siblings are generated too). *)
+(* the dependencies that generateEquationCode goes through for the equation e *)
+Definition system_deps (e : aeq) : list nat :=
+  if sfx then ae_deps e ++ flat_map (fun sb => match find_aeq r sb with Some se => ae_deps se | None => [] end) (ae_sibs e)
+  else ae_deps e.
+
 (* generator.cpp: generateEquationCode(equation, remainingEquations, equationsForDependencies, includeComputedConstants):
    the positions of the equations whose code is emitted, in order, and the new remainingEquations.  Fuel: every call
    that does anything removes the equation from remainingEquations. *)
@@ -290,7 +300,7 @@ Fixpoint gen_eq (fuel : nat) (icc : bool) (efd : list nat) (pos : nat) (remainin
                                       then let '(c, rm) := gen_eq f icc efd d (snd acc) in (fst acc ++ c, rm)
                                       else acc
                          | None => acc
-                         end) (ae_deps e) ([], rem1) in
+                         end) (system_deps e) ([], rem1) in
           (code ++ [pos], rem2)
       end
   end.
@@ -388,3 +398,6 @@ Definition acyclic_by (rank : nat -> nat) : Prop :=
   (forall e sib, In e (r_eqs r) -> In sib (ae_sibs e) -> rank sib = rank (ae_pos e)).
 
 End Emission.
+
+(* the switch for the repaired generator (fixes/C20-nla-sibling-dependencies.diff) *)
+Definition sibling_fix : bool := true.
